@@ -175,14 +175,17 @@ class BaseFormOperator(Operator, BaseForm, Counted):
     def __repr__(self):
         """Default repr string construction for base form operators."""
         r = f"{type(self).__name__}("
-        r += ", ".join(repr(op) for op in self.ufl_operands)
-        r += "; {self.ufl_function_space()!r}; "
-        r += ", ".join(repr(arg) for arg in self.argument_slots())
-        r += f"; derivatives={self.derivatives!r})"
+        r += "".join(repr(op) + ", " for op in self.ufl_operands)
+        r += f"function_space={self.ufl_function_space()!r}, "
+        r += f"derivatives={self.derivatives!r}, "
+        r += f"argument_slots={self.argument_slots()!r})"
         return r
 
-    def __hash__(self):
-        """Hash code for use in dicts."""
+    def _ufl_compute_hash_(self):
+        """Hash code for use in dicts (called by compute_expr_hash, which ufl_type installs as __hash__)."""
+        if not hasattr(self, "derivatives"):
+            # BaseFormOperatorDerivative etc. never run BaseFormOperator.__init__: plain operators
+            return Operator._ufl_compute_hash_(self)
         hashdata = (
             type(self),
             tuple(hash(op) for op in self.ufl_operands),
